@@ -24,6 +24,7 @@ mod c11;
 mod c12;
 pub mod units;
 mod c13;
+mod c15;
 pub mod c17;
 mod c20;
 
@@ -77,6 +78,7 @@ fn main() {
         "c11" => (c11::gen, c11::exec),
         "c12" => (c12::gen, c12::exec),
         "c13" => (c13::gen, c13::exec),
+        "c15" => (c15::gen, c15::exec),
         "c17" => (c17::gen, c17::exec),
         "c20" => (c20::gen, c20::exec),
         _ => { eprintln!("unknown property {}", prop); std::process::exit(2); }
